@@ -822,6 +822,18 @@ func (fc *FnCtx) transCall(env *Env, e *CCall) (Val, types.Type) {
 			}
 			al := fc.heapGet(env.st, "alloc", ArraySort("Ref", "Bool"))
 			return tb.Select(al, fc.objBase(x)), boolT
+		case "mirrors":
+			a, at := argT(0)
+			b, bt := argT(1)
+			excl := ""
+			if len(e.Args) > 2 {
+				s, ok := e.Args[2].(*CStr)
+				if !ok {
+					fc.tfail("mirrors: third argument must be a string literal of excluded field names")
+				}
+				excl = s.Val
+			}
+			return fc.mirrors(env, a, at, b, bt, excl), boolT
 		case "arrayOf":
 			// arrayOf(s): the backing array of a slice (nil for the nil slice); for aliasing facts
 			x, _ := argT(0)
